@@ -214,6 +214,9 @@ class Ctx:
                 raise Unsupported("concretisation of a value with too many cases")
             self.n_decided += 1
             r = self.check(*[e != x for x in excl])
+            if r == "unknown":
+                # a descheduled process can lose a trivial query to the wall-clock timeout: retry once, generously
+                r = self.check(*[e != x for x in excl], timeout_ms=max(20000, 5 * self.timeout_ms))
             if r == "unsat":
                 raise PathAbort()
             if r == "unknown":
